@@ -104,16 +104,16 @@ fn group(p: &mut P, rows: usize, cols: usize, inner: &Shape, symbol: &str, prese
             }
             p.expect("]")?;
         }
+        _ if rows * cols == 0 => {
+            // an empty matrix is rendered by nalgebra as "[ ]"
+            p.expect("[ ]")?;
+        }
         _ => {
             if *inner != Shape::Leaf {
                 return Err("matrix-shaped parts of nested element types are not covered by the grammar".into());
             }
             // nalgebra prints row by row; storage (and the canonical flattening) is column-major
             out.extend(std::iter::repeat(0.0).take(rows * cols));
-            if rows * cols == 0 && p.rest().starts_with("[ ]") {
-                // nalgebra renders an empty matrix as "[ ]"
-                p.pos += 3;
-            }
             for i in 0..rows {
                 for j in 0..cols {
                     p.skip_box();
@@ -173,6 +173,21 @@ fn value(p: &mut P, shape: &Shape, out: &mut Vec<f64>, pres: &mut std::slice::It
     }
 }
 
+/// does the shape contain a matrix-shaped optional part whose elements are not plain floats?
+fn nested_matrix(s: &Shape) -> bool {
+    match s {
+        Shape::Leaf => false,
+        Shape::Level(k, inner) => {
+            let mat = match k {
+                Kind::Dual2Vec(n) => *n >= 2,
+                Kind::HyperDualVec(m, n) => *m >= 2 && *n >= 2,
+                _ => false,
+            };
+            (mat && **inner != Shape::Leaf) || nested_matrix(inner)
+        }
+    }
+}
+
 fn exotic(rng: &mut Rng, f32: bool) -> f64 {
     let v = match rng.below(9) {
         0 => -0.0,
@@ -203,7 +218,14 @@ fn check_type<T: Jetty>(tname: &str, ctx: &Ctx, shard: usize, nshards: usize, ti
             continue;
         }
         let mut rng = Rng::stream(ctx.seed, 1800 + tindex, ci);
-        let shape = T::shape((rng.below(5), rng.below(4)));
+        let mut shape = T::shape((rng.below(5), rng.below(4)));
+        if nested_matrix(&shape) {
+            // matrix-shaped parts of nested element types are not covered by the grammar
+            shape = T::shape((rng.below(5), rng.below(2)));
+            if nested_matrix(&shape) {
+                continue;
+            }
+        }
         let n = shape.nslots();
         // distinct value per storage slot (so matrices are not symmetric); some whole groups zero
         let mut slots: Vec<f64> = (0..n).map(|_| exotic(&mut rng, T::IS_F32)).collect();
@@ -288,13 +310,20 @@ fn main() {
         go!(HyperDualSVec64<2, 2>, "HyperDualSVec64<2,2>");
         go!(HyperDualSVec64<3, 3>, "HyperDualSVec64<3,3>");
         go!(Dual2SVec64<4>, "Dual2SVec64<4>");
+        // nested element types under the vector types (vector- and scalar-shaped parts only)
+        go!(HyperDualVec<Dual64, f64, Const<2>, Const<1>>, "HyperDualVec<Dual64,2,1>");
+        go!(HyperDualVec<Dual2_64, f64, Const<1>, Const<3>>, "HyperDualVec<Dual2_64,1,3>");
+        go!(HyperDualVec<Dual64, f64, Dyn, Dyn>, "HyperDualVec<Dual64,Dyn,Dyn>");
+        go!(Dual2Vec<Dual64, f64, Const<1>>, "Dual2Vec<Dual64,1>");
+        go!(DualVec<HyperDual64, f64, Const<3>>, "DualVec<HyperDual64,3>");
+        go!(DualVec<DualSVec64<2>, f64, Dyn>, "DualVec<DualSVec64<2>,Dyn>");
         let _ = t;
         acc
     });
     let types: std::collections::BTreeSet<String> = acc.classes.keys().map(|k| k.split('|').next().unwrap().to_string()).collect();
     let mut extra = serde_json::Map::new();
     extra.insert("types_observed".into(), json!(types));
-    let required = vec![("at least 44 types observed".to_string(), types.len() >= 44)];
+    let required = vec![("at least 50 types observed".to_string(), types.len() >= 50)];
     ctx.finish(
         acc,
         "class = (type, shape incl. run-time dimensions 0..4, presence pattern of the optional parts); every class is non-trivial: every storage slot carries its own finite value (negative, -0.0, subnormal, 1e+-300, integers, random bits), matrices are not symmetric, optional all-zero parts are absent according to a random mask.",
